@@ -122,6 +122,20 @@ M = [
  ('observe-on-with-delay', 'src/ops/observe_on.rs', 'let handler = self.scheduler.schedule(task, None);\n        self.subscription.append($box_unsub::new(handler));\n      }\n\n      #[inline]\n      fn error', 'let handler = self.scheduler.schedule(task, Some(Duration::from_millis(1)));\n        self.subscription.append($box_unsub::new(handler));\n      }\n\n      #[inline]\n      fn error', 'C07', 'fire'),
  ('group-by-announce-after', 'src/ops/group_by.rs', '      self.observer.next(wrapper);\n      subject\n    });\n    subject.next(value);', '      subject\n    });\n    subject.next(value);', 'C20', 'fire'),
  ('threads-twin-diverges', 'src/ops/skip_until.rs', '  fn is_skipping(&self) -> bool {\n    self.skip.load(Ordering::Relaxed)', '  fn is_skipping(&self) -> bool {\n    !self.skip.load(Ordering::Relaxed)', 'C18', 'fire'),
+ # --- round 7 / sweep 5: snapshots of the counter (tables.py linear values), new rules T2-trunc, I6, R10, N6
+ ('take-snapshot-last', 'src/ops/take.rs', '        self.hits += 1;\n        observer.next(value);\n        if self.hits == self.count {', '        let is_last = self.hits + 1 == self.count;\n        self.hits += 1;\n        observer.next(value);\n        if is_last {', 'C03', 'silent'),
+ ('take-snapshot-stale', 'src/ops/take.rs', '        self.hits += 1;\n        observer.next(value);\n        if self.hits == self.count {', '        self.hits += 1;\n        let is_last = self.hits + 1 == self.count;\n        observer.next(value);\n        if is_last {', 'C03', 'fire'),
+ ('skip-snapshot', 'src/ops/skip.rs', '    self.hits += 1;\n    if self.hits > self.count {', '    let seen_before = self.hits;\n    self.hits += 1;\n    if seen_before >= self.count {', 'C03', 'silent'),
+ ('skip-snapshot-gt', 'src/ops/skip.rs', '    self.hits += 1;\n    if self.hits > self.count {', '    let seen_before = self.hits;\n    self.hits += 1;\n    if seen_before > self.count {', 'C03', 'fire'),
+ ('skip-last-checked-sub', 'src/ops/skip_last.rs', '    if self.count_down == 0 {\n      self.observer.next(self.queue.pop_front().unwrap());\n    } else {\n      self.count_down -= 1;\n    }', '    match self.count_down.checked_sub(1) {\n      Some(left) => self.count_down = left,\n      None => self.observer.next(self.queue.pop_front().unwrap()),\n    }', 'C03', 'silent'),
+ ('skip-last-checked-sub-2', 'src/ops/skip_last.rs', '    if self.count_down == 0 {\n      self.observer.next(self.queue.pop_front().unwrap());\n    } else {\n      self.count_down -= 1;\n    }', '    match self.count_down.checked_sub(2) {\n      Some(left) => self.count_down = left,\n      None => self.observer.next(self.queue.pop_front().unwrap()),\n    }', 'C03', 'fire'),
+ ('delay-at-whole-secs', 'src/observable.rs', '      delay: at.saturating_duration_since(Instant::now()),', '      delay: Duration::from_secs(at.saturating_duration_since(Instant::now()).as_secs()),', 'C07', 'fire'),
+ ('futuretask-take-on-pending', 'src/scheduler.rs', '        Poll::Ready((*this.task)(v, args))\n      }\n      Poll::Pending => Poll::Pending,', '        Poll::Ready((*this.task)(v, args))\n      }\n      Poll::Pending => {\n        let _ = this.args.take();\n        Poll::Pending\n      }', 'C08', 'fire'),
+ ('status-completed-ge', 'src/ops/complete_status.rs', '  pub fn is_completed(&self) -> bool {\n    self.flag.load(Ordering::Relaxed) > 0', '  pub fn is_completed(&self) -> bool {\n    self.flag.load(Ordering::Relaxed) >= 0', 'C14', 'fire'),
+ ('status-error-eq', 'src/ops/complete_status.rs', '  pub fn error_occur(&self) -> bool {\n    self.flag.load(Ordering::Relaxed) < 0', '  pub fn error_occur(&self) -> bool {\n    self.flag.load(Ordering::Relaxed) == -1', 'C14', 'silent'),
+ ('status-error-stores-2', 'src/ops/complete_status.rs', '    self.status.flag.store(-1, Ordering::Relaxed);', '    self.status.flag.store(2, Ordering::Relaxed);', 'C14', 'fire'),
+ ('finalize-unsub-under-guard', 'src/ops/finalize.rs', '    self.subscription.unsubscribe();\n    if let Some(func) = self.func.rc_deref_mut().take() {\n      func()\n    }', '    let mut slot = self.func.rc_deref_mut();\n    self.subscription.unsubscribe();\n    if let Some(func) = slot.take() {\n      func()\n    }', 'C15', 'fire'),
+ ('share-relock-before-replace', 'src/ops/ref_count.rs', '          let connected = InnerShareOp::Connected(subject.clone());\n          let connectable = std::mem::replace(&mut *inner, connected);', '          let connected = InnerShareOp::Connected(subject.clone());\n          drop(inner);\n          let mut inner = self.0.rc_deref_mut();\n          let connectable = std::mem::replace(&mut *inner, connected);', 'C10', 'fire'),
 ]
 ALL = ['C%02d' % i for i in range(1, 21)]
 
